@@ -244,7 +244,7 @@ func (h *Handler) saltAuthToken(req *http.Request, remote string) (updatedReq *h
 
 	creds := auth.NewCredentials()
 	creds.LoadTokensFromHTTPRequest(updatedReq)
-	if len(creds.Tokens) == 0 && updatedReq.Header.Get("Content-Type") == "application/x-www-form-encoded" {
+	if updatedReq.Header.Get("Content-Type") == "application/x-www-form-urlencoded" && updatedReq.Body != nil {
 		// Override ParseForm's 10MiB limit by ensuring
 		// req.Body is a *http.maxBytesReader.
 		updatedReq.Body = http.MaxBytesReader(nil, updatedReq.Body, 1<<28) // 256MiB. TODO: use MaxRequestSize from discovery doc or config.
